@@ -14,6 +14,7 @@ PROP = dict(
         "C05_pass_segments", "C05_labels_preserved", "C05_pass_sound_block", "C05_chain_sound_block",
         "C05_pass_label_split", "C05_optimize_label_split", "C05_without_imm_sound", "C05_expand_immediates_sound",
         "C05_expand_immediates_labels", "C05_optimize_sound_partial",
+        "C05_pass_sound", "C05_pass_sound_at_label", "C05_optimize_sound",
     ],
     harness_bin="c05",
     # exact instruction streams are more than the property fixes: a bare model mismatch is reported as
@@ -66,12 +67,15 @@ PROP = dict(
     level_text="Theorems over every machine state and every behaviour of the uninterpreted primitives: each *Imm instruction equals its plain twin "
                "after pushing the constant (incl. errors); each of the 25 peephole rules replaces its window by code with the same outcome "
                "(state, control, error kind); the rule tables, the pass and the fixpoint are transliterated and shown to only copy lines or "
-               "rewrite label-free windows by fired rules, keeping the label sequence. Tied to /repo on every run by exact comparison of "
+               "rewrite label-free windows by fired rules, keeping the label sequence; a pass and the fixpoint preserve the outcome of every "
+               "finished whole-program run (forward simulation through labels, calls and returns); expand_immediates is outcome-preserving for every pool. Tied to /repo on every run by exact comparison of "
                "Opt.optimize with the real optimizer on corpus and generated programs, and by optimizer-on/off and literal/variable oracles.",
-    level_note="Partial (C05_optimize_sound_partial): the whole-program simulation through jumps, calls and returns is not proved "
-               "(needs the VM model of frames and code addresses); proved are all rule lemmas, Imm consistency, pass structure, soundness of a "
-               "pass and of the fixpoint on every label-free block entered at its start, label preservation and independence of the blocks "
-               "a label delimits. Float arithmetic and printing are parameters; the float folds assume parse∘to_string = id on non-NaN values.",
+    level_note="C05_optimize_sound is proved for a single thread on labelled programs with symbolic code addresses (Asm.runG: labels, "
+               "jumps, calls pushing return continuations, returns, halt) in the forward direction: every finished run of the original that "
+               "meets the two side conditions (stated as the checked semantics not reaching `sideFail`, for the original and the intermediate "
+               "programs of the fixpoint) is a run of the optimized program with the same final outcome. Still open: the converse simulation "
+               "(preservation of divergence), several green threads, label-to-address resolution. Float arithmetic and printing are parameters; "
+               "the float folds assume parse∘to_string = id on non-NaN values; the constant pool of expand_immediates is an input.",
     technique="Lean 4 theorems (symbolic execution of windows over an abstract stack machine, induction over the pass) + differential "
               "correspondence of the transliterated optimizer against the real one + implementation-vs-implementation oracles",
     timeout=3000,
